@@ -31,7 +31,11 @@ func TestWorker(t *testing.T) {
 	}
 	defer f.Close()
 	bw := bufio.NewWriter(f)
-	defer bw.Flush()
+	defer func() {
+		// completion marker: sub-tests of the MakeFuzz leg fail by design, so the exit status says nothing
+		bw.WriteString("{\"done\":true}\n")
+		bw.Flush()
+	}()
 	enc := json.NewEncoder(bw)
 	if spec.Tapes != nil {
 		for i, tp := range spec.Tapes {
@@ -50,6 +54,7 @@ func TestWorker(t *testing.T) {
 			break
 		}
 		tape := NewTape(MixSeed(spec.Seed, HashString(spec.Property), uint64(idx)))
+		tape.Idx = idx
 		res := runOne(&spec, idx, tape)
 		_ = enc.Encode(res)
 		bw.Flush()
